@@ -175,10 +175,10 @@ func C07Corpus() []*C7Prog {
 		{Name: "cond-debug", Src: "(if (p b0) (d n1 n2) (g n3))", Vars: c7vars("b0", "n1", "n2", "n3"), Opt: ev(allOn, 2),
 			Calls: []C7Call{evalc("Eval#true", true, int64(1), int64(2), int64(3)), evalc("Eval#false", false, int64(4), int64(5), int64(6)), insp[2]}},
 		{Name: "deep-stack(>16)", Src: deep, Vars: c7vars("n0", "n1", "n2", "n3"), Opt: off,
-			Calls: []C7Call{evalc("Eval#1", i64(100, 200, 3, 4)...), evalc("Eval#2", i64(5000, 6000, 7, 8)...), evalc("Eval#3", i64(-1, -2, -3, -4)...),
-				tryc("TryEval#all", nil, i64(9, 9, 9, 9)...)}},
+			Calls: []C7Call{evalc("Eval#1", i64(100, 200, 3, 4)...), evalc("Eval#2", i64(5000, 6000, 7, 8)...),
+				tryc("TryEval#all", nil, i64(9, 9, 9, 9)...), tryc("TryEval#all-2", nil, i64(-40, -50, -6, -7)...)}},
 		{Name: "mid-stack(9..16)", Src: mid, Vars: c7vars("n0", "n1", "n2", "n3"), Opt: allOn,
-			Calls: []C7Call{evalc("Eval#1", i64(100, 200, 3, 4)...), evalc("Eval#2", i64(5000, 6000, 7, 8)...), tryc("TryEval#all", nil, i64(9, 9, 9, 9)...)}},
+			Calls: []C7Call{evalc("Eval#1", i64(100, 200, 3, 4)...), tryc("TryEval#all", nil, i64(9, 9, 9, 9)...), tryc("TryEval#n1-unavailable", []bool{true, false, true, true}, i64(70, 80, 1, 2)...)}},
 		{Name: "large-list-builtins", Src: "(and (overlap l0 (" + strings.Join(big, " ") + ")) (in n1 (3 1 2)))", Vars: c7vars("l0", "n1"), Opt: allOn,
 			Calls: append([]C7Call{evalc("Eval#hit", []int64{5, 1001}, int64(2)), evalc("Eval#miss", []int64{5, 6}, int64(2)),
 				tryc("TryEval#n1-unavailable", []bool{true, false}, []int64{1001}, int64(1))}, insp[0])},
@@ -557,7 +557,11 @@ func exploreC7(r *rep.Run, w int, p *C7Prog, thr [][]int, bound int, iso []strin
 func c07Race(r *rep.Run) {
 	bin := filepath.Join(rep.Root, ".bin", sprintf("racepass.%d", os.Getpid()))
 	defer os.Remove(bin)
-	build := exec.Command("go", "build", "-race", "-o", bin, "./cmd/racepass")
+	args := []string{"build", "-race"}
+	if mf := os.Getenv("VERIF_MODFILE"); mf != "" {
+		args = append(args, "-modfile="+mf)
+	}
+	build := exec.Command("go", append(args, "-o", bin, "./cmd/racepass")...)
 	build.Dir = filepath.Join(rep.Root, "mc")
 	build.Env = append(os.Environ(), "CGO_ENABLED=1", "GOFLAGS=-mod=mod", "GOPROXY=off", "GOSUMDB=off", "GOTOOLCHAIN=local")
 	if out, err := build.CombinedOutput(); err != nil {
